@@ -591,71 +591,161 @@ func runC16(c *Ctx) {
 		c.check(uint64(at.Len()) == size, "C16.R5", "ring-array kfmt.ringBuffer.buffer", "array length equals ringBufferSize", "buffer length differs from ringBufferSize")
 	}
 	gw := newIG(m, rbWrite, nil)
-	masked := func(v ssa.Value, fld *types.Var) bool {
-		x, mask, ok := maskTest(v)
-		if !ok || mask != size-1 {
-			return false
-		}
-		add, ok := x.(*ssa.BinOp)
-		if !ok || add.Op != token.ADD {
-			return false
-		}
-		one, ok := constInt64(add.Y)
-		return ok && one == 1 && isLoadOfField(add.X, fld)
-	}
-	nW, nR := 0, 0
-	for n, in := range gw.Ins {
-		st, ok := in.(*ssa.Store)
-		if !ok {
+	// The indices as loop state. An index is advanced either in place
+	// (rb.wIndex = f(rb.wIndex) inside the loop) or in a local that starts as the
+	// field, is carried around the loop and is stored back after it. Both are
+	// read as "F becomes f(F)"; f must be (F+1) mod size, however the wrap-around
+	// is spelled (& (size-1), % size).
+	cached := map[*types.Var]*ssa.Phi{}
+	for _, in := range gw.Ins {
+		phi, ok := in.(*ssa.Phi)
+		if !ok || !isIntegral(phi.Type()) {
 			continue
 		}
-		f, rest := lastField(accessPath(st.Addr))
-		if rest != "" {
+		if h, body := loopOf(phi.Block()); h != phi.Block() || body == nil {
 			continue
 		}
-		switch f {
-		case wIdx:
-			nW++
-			c.check(masked(st.Val, wIdx), "C16.R5", "ring-write-index "+m.fnName(rbWrite), "wIndex = (wIndex+1) & (size-1)", "the write index is not advanced as (wIndex+1) & (size-1)", gw.posOf(n))
-		case rIdx:
-			nR++
-			caught := hasFact(gw.FactsAt(n), func(f Fact) bool {
-				return cmpMatch(f, token.EQL, func(v ssa.Value) bool { return isLoadOfField(v, rIdx) }, func(v ssa.Value) bool { return isLoadOfField(v, wIdx) || masked(v, wIdx) })
-			})
-			c.check(masked(st.Val, rIdx) && caught, "C16.R5", "ring-read-index "+m.fnName(rbWrite), "rIndex = (rIndex+1) & (size-1) exactly on the rIndex == wIndex side",
-				"the read index is not advanced (masked) exactly when the write index catches it", gw.posOf(n))
+		for _, e := range phi.Edges {
+			for _, fld := range []*types.Var{wIdx, rIdx} {
+				if isLoadOfField(stripConv(e), fld) {
+					cached[fld] = phi
+				}
+			}
 		}
 	}
-	if nW == 0 {
+	zr := &Polyizer{Atom: func(v ssa.Value) string {
+		for fld, name := range map[*types.Var]string{wIdx: "w", rIdx: "r"} {
+			if isLoadOfField(v, fld) || (cached[fld] != nil && v == ssa.Value(cached[fld])) {
+				return name
+			}
+		}
+		return ""
+	}}
+	shift, _ := log2(size)
+	next := func(name string) Poly {
+		p := polyAtom(name).add(polyConst(1), 1)
+		return p.add(pFdiv(shift, p).mul(polyConst(int64(size))), -1)
+	}
+	type update struct {
+		val   Poly
+		facts []Fact
+		pos   string
+	}
+	updates := func(fld *types.Var) (out []update, problem string) {
+		for n, in := range gw.Ins {
+			st, ok := in.(*ssa.Store)
+			if !ok {
+				continue
+			}
+			f, rest := lastField(accessPath(st.Addr))
+			if f != fld || rest != "" {
+				continue
+			}
+			if phi := cached[fld]; phi != nil && stripConv(st.Val) == ssa.Value(phi) {
+				if h, body := loopOf(phi.Block()); h != nil && !body[st.Block()] {
+					continue // the write-back of the local after the loop
+				}
+			}
+			out = append(out, update{zr.Of(st.Val), gw.FactsAt(n), gw.posOf(n)})
+		}
+		if phi := cached[fld]; phi != nil {
+			wroteBack := false
+			for _, in := range gw.Ins {
+				if st, ok := in.(*ssa.Store); ok && stripConv(st.Val) == ssa.Value(phi) {
+					if f, rest := lastField(accessPath(st.Addr)); f == fld && rest == "" {
+						wroteBack = true
+					}
+				}
+			}
+			if !wroteBack {
+				problem = "the index is advanced in a local that is never stored back into the ring"
+			}
+			_, body := loopOf(phi.Block())
+			pe := gw.predEdges(phi.Block())
+			seen := map[string]bool{}
+			for i, e := range phi.Edges {
+				if !body[phi.Block().Preds[i]] {
+					continue
+				}
+				if stripConv(e) == ssa.Value(phi) {
+					continue // unchanged on this path
+				}
+				ed := pe[i]
+				cases := []ValCase{{Val: e, At: ed.From, Edge: &ed}}
+				if gw.isMerge(e) {
+					cases = gw.valueCases(e, ed.From)
+				}
+				for _, vc := range cases {
+					if stripConv(vc.Val) == ssa.Value(phi) {
+						continue // unchanged on this path
+					}
+					k := fmt.Sprint(vc.Val.Name(), vc.At)
+					if seen[k] {
+						continue
+					}
+					seen[k] = true
+					out = append(out, update{zr.Of(vc.Val), gw.ValFacts(vc), gw.posOf(vc.At)})
+				}
+			}
+		}
+		return
+	}
+	isR := func(v ssa.Value) bool { return zr.Of(v).equal(polyAtom("r")) }
+	isWNew := func(v ssa.Value) bool {
+		return isLoadOfField(v, wIdx) || zr.Of(v).equal(next("w"))
+	}
+	wUps, wProblem := updates(wIdx)
+	for _, u := range wUps {
+		ok := u.val.equal(next("w")) && wProblem == ""
+		msg := "the write index is not advanced as (wIndex+1) & (size-1)"
+		if wProblem != "" {
+			msg = wProblem
+		}
+		c.check(ok, "C16.R5", "ring-write-index "+m.fnName(rbWrite), "wIndex = (wIndex+1) & (size-1)", msg, u.pos)
+	}
+	rUps, rProblem := updates(rIdx)
+	for _, u := range rUps {
+		caught := hasFact(u.facts, func(f Fact) bool { return cmpMatch(f, token.EQL, isR, isWNew) })
+		ok := u.val.equal(next("r")) && caught && rProblem == ""
+		msg := "the read index is not advanced (masked) exactly when the write index catches it"
+		if rProblem != "" {
+			msg = rProblem
+		}
+		c.check(ok, "C16.R5", "ring-read-index "+m.fnName(rbWrite), "rIndex = (rIndex+1) & (size-1) exactly on the rIndex == wIndex side", msg, u.pos)
+	}
+	if len(wUps) == 0 {
 		c.fail("C16.R5", "ring-write-index "+m.fnName(rbWrite), "ringBuffer.Write never advances the write index", m.pos(rbWrite.Pos()))
 	}
-	if nR == 0 {
+	if len(rUps) == 0 {
 		c.fail("C16.R5", "ring-read-index "+m.fnName(rbWrite), "ringBuffer.Write never advances the read index when the buffer is full: the oldest byte is not dropped and the whole buffer appears empty", m.pos(rbWrite.Pos()))
 	}
-	// after advancing wIndex, the caught test must follow on every path to the next iteration
+	// in every iteration that stores a byte the caught test rIndex == (new) wIndex
+	// is made before the next byte
 	for n, in := range gw.Ins {
 		st, ok := in.(*ssa.Store)
 		if !ok {
 			continue
 		}
-		if f, rest := lastField(accessPath(st.Addr)); f == wIdx && rest == "" {
-			isTest := func(k int) bool {
-				_, ok := gw.Ins[k].(*ssa.If)
-				if !ok {
-					return false
-				}
-				f, ok := condFact(gw.Cond(k), true)
-				return ok && cmpMatch(f, token.EQL, func(v ssa.Value) bool { return isLoadOfField(v, rIdx) }, func(v ssa.Value) bool { return isLoadOfField(v, wIdx) })
+		if f, rest := lastField(accessPath(st.Addr)); f != bufF || rest == "" {
+			continue
+		}
+		hdr, _ := loopOf(st.Block())
+		if hdr == nil {
+			c.fail("C16.R5", "ring-caught-test "+m.fnName(rbWrite), "the byte store is not in a loop over the bytes written", gw.posOf(n))
+			continue
+		}
+		isTest := func(k int) bool {
+			if _, ok := gw.Ins[k].(*ssa.If); !ok {
+				return false
 			}
-			hdr, _ := loopOf(st.Block())
-			if hdr != nil {
-				h := gw.First[hdr]
-				if p := gw.Path(gw.Succ[n], nil, isTest, func(k int) bool { return k == h }); p != nil {
-					c.fail("C16.R5", "ring-caught-test "+m.fnName(rbWrite), "the next byte is written without testing rIndex == wIndex after advancing the write index", gw.where(p, 6)...)
-				} else {
-					c.ok("C16.R5", "ring-caught-test "+m.fnName(rbWrite), "rIndex == wIndex is tested after every advance of the write index")
-				}
-			}
+			f, ok := condFact(gw.Cond(k), true)
+			return ok && (cmpMatch(f, token.EQL, isR, isWNew) || cmpMatch(f, token.NEQ, isR, isWNew))
+		}
+		h := gw.First[hdr]
+		if p := gw.Path(gw.Succ[n], nil, isTest, func(k int) bool { return k == h }); p != nil {
+			c.fail("C16.R5", "ring-caught-test "+m.fnName(rbWrite), "the next byte is written without testing rIndex == wIndex after advancing the write index", gw.where(p, 6)...)
+		} else {
+			c.ok("C16.R5", "ring-caught-test "+m.fnName(rbWrite), "rIndex == wIndex is tested after every advance of the write index")
 		}
 	}
 }
